@@ -411,6 +411,22 @@ func alphabet(m *tbin.Val, s *tbin.Shape, typed bool) []op {
 				ops = append(ops, op{Kind: "setmany", Many: sel, Trig: manyTrig(m, sel[:1]) + ",mixed-key-spellings", Expect: "many"})
 			}
 		}
+		// SetMany whose paths are ALL of a kind that does not fit the container: an error, nothing changes
+		{
+			var wk []tutil.PE
+			switch m.T {
+			case tbin.STRUCT:
+				wk = []tutil.PE{{K: 'i', I: 0}, {K: 's', S: "a"}}
+			case tbin.MAP:
+				wk = []tutil.PE{{K: 'f', ID: 1}, {K: 'i', I: 0}}
+			default:
+				wk = []tutil.PE{{K: 'f', ID: 1}, {K: 's', S: "a"}}
+			}
+			for _, e := range wk {
+				it := manyItem{PE: e, Val: tbin.I32v(1), ValS: tbin.Sc(tbin.I32)}
+				ops = append(ops, op{Kind: "setmany", Many: []manyItem{it}, Trig: "setmany,paths-of-the-wrong-kind-on:" + kindOf(m), Expect: "error"})
+			}
+		}
 		for i := range cands {
 			ops = append(ops, op{Kind: "setmany", Many: []manyItem{cands[i]}, Trig: manyTrig(m, cands[i:i+1]), Expect: "many"})
 			for j := range cands {
